@@ -71,7 +71,13 @@ def add_hidden(d, ch):
             if "__type__" in x and ch.bool():
                 hk = ch.choice(["__note__", "__x__", "__comments__", "__position__"])
                 # __comments__ / __position__ are declared as objects by some schemas: keep them well-typed
-                x[hk] = {"name": "# c"} if hk in ("__comments__", "__position__") else ch.choice([1, "text", {"a": "b"}, ["l"]])
+                if hk == "__position__":
+                    if hk not in x:  # (a real position record may already be there)
+                        x[hk] = {"line": 1, "column": 1}  # well-formed: validate reads positions for its messages
+                elif hk == "__comments__":
+                    x[hk] = {"name": "# c"}
+                else:
+                    x[hk] = ch.choice([1, "text", {"a": "b"}, ["l"]])
             for k, v in list(x.items()):
                 if not k.startswith("__"):
                     rec(v)
